@@ -65,6 +65,30 @@ def run_one(workdir, idx, rnd, ct):
     mod = load_module(path, name)
     vg = ValGen(rnd, max_depth=2)
     mod.V[:] = [vg.value() for _ in range(nvals)]
+    # value families: every slot of V drawn from one family, so that a single position sees several related values
+    # (the shapes the merge and the rewriters treat specially)
+    if rnd.random() < 0.4:
+        import collections
+        from harness import fxclasses as fx
+        fams = [
+            # lists / sets / tuples of different class objects and of instances
+            [[fx.A, fx.B], [fx.A], [int, str], [fx.B, fx.D, fx.A], [fx.A(), fx.B()], (fx.A, int), {fx.A, fx.B}, [fx.MyList, fx.A]],
+            # homogeneous tuples of many lengths over two element types (RewriteLargeUnion's tuple rule)
+            [(1,), (1, 2), (1, 2, 3), ("a",), ("a", "b"), (1, 2, 3, 4), ("a", "b", "c", "d", "e"), (), (1, 2, 3, 4, 5, 6)],
+            # empty and non-empty containers of several kinds at one position (RemoveEmptyContainers)
+            [{}, collections.defaultdict(int, {"a": 1}), [], [1], set(), {1}, {1: "x"}, collections.defaultdict(list), ()],
+            # str-keyed dicts with overlapping key sets and differing value types (TypedDict merges across calls and levels)
+            [[{"id": 1}], [{"id": 1, "tag": "x"}], {"id": 2, "tag": 7}, [{"id": 1}, {"id": 2, "tag": "y"}], {"id": "s"}, {"tag": None},
+             {"id": 1, "tag": "x", "extra": [1]}, [[{"id": 1}], [{"tag": 2}]]],
+            # more than five unrelated classes at one position (RewriteLargeUnion / common base)
+            [fx.A(), fx.B(), fx.C(), fx.D(), fx.E(), fx.F(), fx.X(), fx.Y(), fx.XY1(), fx.YX1(), 1, "s", None],
+            # equal values of different classes
+            [1, True, 1.0, {1}, {True}, {1.0}, (1, 2), (True, 2), {(1, 2)}, {(True, 2)}, {1: "a"}, {True: "a"}],
+        ]
+        fam = rnd.choice(fams)
+        mod.V[:] = [rnd.choice(fam) for _ in range(nvals)]
+        if rnd.random() < 0.5:
+            mod.V[rnd.randrange(nvals)] = vg.value()
     if rnd.random() < 0.08:            # a value whose class cannot be looked up by name (recorded finding)
         mod.V[rnd.randrange(nvals)] = rnd.choice([{}.keys(), iter([]), sys, [sys], {"m": iter(())}])
     cfg = importlib.import_module(cfgname).CONFIG
